@@ -176,7 +176,12 @@ func decode8BitAsciiLatin1(b []byte, c int) (string, int, error) {
 		return "", 0, fmt.Errorf("expected %v bytes, got %v", c, len(b))
 	}
 
-	// can convert straight into a string as the encoding's range is
-	// identical to UTF-8
-	return string(b[:c]), c, nil
+	// each byte is the Unicode code point of the character it represents;
+	// only the ASCII range is encoded identically in UTF-8, so build the
+	// string from runes rather than casting the bytes
+	runes := make([]rune, c)
+	for i := 0; i < c; i++ {
+		runes[i] = rune(b[i])
+	}
+	return string(runes), c, nil
 }
